@@ -53,6 +53,11 @@ enum { DF_RET_NEG = 1, DF_DISCONNECT_SELF = 2, DF_HOLD_REF = 4, DF_SENDV_REPLY =
 
 static int which;   // 2..6
 
+// what the hostile peer put on the raw request channel: real byte count and the length its header claimed
+struct RawSent { uint32_t bytes; int32_t claimed; };
+static std::deque<RawSent> g_raw_sent;
+static qb_ipcc_connection_t *g_hostile_cc;
+
 #define REQ_HDR ((int)sizeof(struct qb_ipc_request_header))
 #define RES_HDR ((int)sizeof(struct qb_ipc_response_header))
 #define DIR_MAGIC 0x51424456u
@@ -99,6 +104,7 @@ struct Conn {
 	qb_ipcc_connection_t *cc = NULL;
 	bool accepted_cb = false, accept_ok = false, created = false, closed_done = false, destroyed = false;
 	int closed_calls = 0, closed_retries_left = 0;
+	bool in_created_cb = false, disc_in_created = false;
 	int app_refs = 0;
 	uint32_t max_msg = 0;
 	std::deque<Msg> req, resp, evq;         // accepted by the sender's call, not yet handed to the receiver
@@ -117,7 +123,7 @@ struct Conn {
 struct ClientSt {
 	int idx = 0, spid = 0; unsigned uid = 0, gid = 0;
 	qb_ipcc_connection_t *cc = NULL; Conn *conn = NULL;
-	bool dead = false, done = false;
+	bool dead = false, done = false, script_done = false;
 	uint32_t max_req = 0;
 	int task = -1;
 	uint32_t fcmax = 1;
@@ -149,7 +155,7 @@ struct St {
 	int64_t shutdown_tick = -1;
 	int accept_policy[3] = { 0, 0, 0 };      // errno to refuse with, per client (0 accept)
 	int auth_set[3] = { 0, 0, 0 }; unsigned auth_uid[3], auth_gid[3], auth_mode[3];
-	bool faults_off = false;
+	bool faults_off = false, rate_reset = false;
 	uint64_t n_msgs_ok = 0;
 	int hostile_fd = -1;
 	std::vector<std::pair<qb_ipcs_connection_t *, int> > held_refs;   // (connection, ticks until unref)
@@ -309,7 +315,9 @@ static void cb_created(qb_ipcs_connection_t *sc)
 	c->created = true;
 	c->max_msg = (uint32_t)qb_ipcs_connection_get_buffer_size(sc);
 	ev(411, c->id);
+	c->in_created_cb = true;
 	fire(T_CREATED, c);
+	c->in_created_cb = false;
 }
 
 static void unref_job(void *data)
@@ -333,6 +341,10 @@ static int32_t cb_msg(qb_ipcs_connection_t *sc, void *data, size_t size)
 	if (c->client < 0) {
 		// hostile accepted peer: only the C06 bounds are judged
 		if (size > c->max_msg) VIOL(6, "size-above-negotiated-max", "qb_ipcs_msg_process", "msg_process size %zu exceeds the negotiated maximum %u", size, c->max_msg);
+		bool backed = false;
+		for (size_t i = 0; i < g_raw_sent.size(); i++)
+			if ((size_t)(uint32_t)g_raw_sent[i].claimed == size && g_raw_sent[i].bytes >= size) backed = true;
+		if (!backed) VIOL(6, "size-exceeds-received", "qb_ipcs_msg_process", "msg_process was told %zu bytes but the peer never sent a message of at least that many bytes claiming that length", size);
 		volatile uint8_t sink = 0;
 		for (size_t i = 0; i < size; i++) sink ^= ((uint8_t *)data)[i];   // the callback may read what it was told it got
 		(void)sink;
@@ -400,7 +412,9 @@ static void cb_destroyed(qb_ipcs_connection_t *sc)
 	if (!c) { VIOL(4, "destroyed-for-unknown-connection", "qb_ipcs_connection_destroyed", "connection_destroyed for an unknown connection"); return; }
 	ev(414, c->id);
 	if (c->destroyed) VIOL(4, "destroyed-twice", "qb_ipcs_connection_destroyed", "connection_destroyed ran twice for connection %d", c->id);
-	if (c->created && !c->closed_done) VIOL(4, "destroyed-before-closed", "qb_ipcs_connection_destroyed", "connection %d destroyed although connection_closed has not returned 0 yet (calls %d)", c->id, c->closed_calls);
+	// (a connection disconnected from inside its own connection_created callback was never established: the library
+	// then skips connection_closed, which the property's wording "closed is only invoked if created was" permits)
+	if (c->created && !c->closed_done && !c->disc_in_created) VIOL(4, "destroyed-before-closed", "qb_ipcs_connection_destroyed", "connection %d destroyed although connection_closed has not returned 0 yet (calls %d)", c->id, c->closed_calls);
 	if (c->app_refs > 0) VIOL(4, "destroyed-with-app-reference", "qb_ipcs_connection_destroyed", "connection %d destroyed while the application still holds %d reference(s)", c->id, c->app_refs);
 	c->destroyed = true;
 	c->server_gone = true;
@@ -433,7 +447,8 @@ static void do_server_op(const Op &op, Conn *ctx)
 	case K_S_DISCONNECT: {
 		Conn *t = ctx;
 		if (op.a[4] >= 0 && (size_t)op.a[4] < G.conns.size()) t = &G.conns[(size_t)op.a[4]];
-		if (!t || t->destroyed || !t->created || t->closed_calls > 0) break;     // legal: a connection the application knows as open
+		if (!t || t->destroyed || !t->created || t->closed_calls > 0 || t->disc_in_created) break;     // legal: a connection the application knows as open
+		if (t->in_created_cb) t->disc_in_created = true;
 		qb_ipcs_disconnect(t->sc);
 		break; }
 	case K_S_REF: {
@@ -505,8 +520,17 @@ static void tick(void *)
 			G.held_refs.erase(G.held_refs.begin() + (long)i);
 		} else i++;
 	}
-	bool all = true;
-	for (int k = 0; k < G.nclients; k++) if (!G.cl[k].done && !G.cl[k].dead) all = false;
+	bool all = true, scripts = true;
+	for (int k = 0; k < G.nclients; k++) {
+		if (!G.cl[k].done && !G.cl[k].dead) all = false;
+		if (!G.cl[k].script_done && !G.cl[k].dead && !G.cl[k].done) scripts = false;
+	}
+	if (scripts && !G.rate_reset && G.svc && !G.svc_destroyed) {
+		// the scripted part is over: the application stops throttling so that what is queued can drain
+		G.rate_reset = true;
+		Op o; memset(&o, 0, sizeof o); o.kind = K_S_RATE; o.a[3] = 1;
+		do_server_op(o, NULL);
+	}
 	if (which == 6 && G.hostile_spid && proc_alive(G.hostile_spid) && !task_done(4 < n_tasks() ? 4 : 0)) {}
 	if (all && G.shutdown_tick < 0) G.shutdown_tick = G.ticks + 3;
 	if (G.shutdown_tick >= 0 && G.ticks >= G.shutdown_tick) {
@@ -700,9 +724,12 @@ static void client_recv(ClientSt &k, int dir, int32_t tmo)
 	uint8_t *buf = (uint8_t *)malloc(cap);
 	// "wait for ever" only makes a bounded run when the server is going to die (C03); otherwise wait long, not for ever
 	if (tmo < 0 && !(G.server_dead || G.server_will_die)) tmo = 2500;
-	int64_t t0 = now_ns();
+	// plain qb_ipcc_recv(-1) is not promised to return after the server died (only sendv_recv and event_recv are)
+	if (tmo < 0 && dir == 1) tmo = 2500;
+	// latency is what the call itself waited for; time during which this process simply was not scheduled does not count
+	int64_t t0 = task_blocked_ns();
 	ssize_t r = dir == 1 ? qb_ipcc_recv(k.cc, buf, cap, tmo) : qb_ipcc_event_recv(k.cc, buf, cap, tmo);
-	int64_t t1 = now_ns();
+	int64_t t1 = task_blocked_ns();
 	ev(445 + (uint32_t)dir, c.id, r);
 	client_note_result(k, r);
 	if (r >= 0) check_out_msg(k, dir, buf, r, dir == 1 ? "qb_ipcc_recv" : "qb_ipcc_event_recv");
@@ -787,6 +814,7 @@ static void client_main(void *arg)
 		if (which == 2 && !failed()) check_pollin(k);
 	}
 	// liveness tail: with faults off and both sides running, everything accepted arrives (bounded)
+	k.script_done = true;
 	faults_enable(false);
 	if (k.cc && k.conn && !failed()) {
 		Conn &c = *k.conn;
@@ -822,9 +850,6 @@ static void client_main(void *arg)
 
 // ------------------------------------------------------------------ hostile peer (C06)
 
-struct RawSent { uint32_t bytes; int32_t claimed; };
-static std::deque<RawSent> g_raw_sent;
-static qb_ipcc_connection_t *g_hostile_cc;
 
 static void hostile_main(void *)
 {
